@@ -556,12 +556,25 @@ def copy_rule(facts: CppFacts, templates: Templates):
                 "this buffer, source the other buffer", u.file, u.line, "UncheckedCopyFrom")
     t = cb["TryToCopyFrom"]
     body = " ".join(t.body.split())
-    for cond, what in ((r"\bOk\(\)", "own Ok()"), (r"other\.Ok\(\)", "source Ok()"),
-                       (r"SizeInBytes\(\)\s*>=\s*size|size\s*<=\s*SizeInBytes\(\)", "destination size"),
-                       (r"other\.SizeInBytes\(\)\s*>=\s*size|size\s*<=\s*other\.SizeInBytes\(\)", "source size")):
+    for cond, what in ((r"(?<![\w.])Ok\(\)", "own Ok()"), (r"other\.Ok\(\)", "source Ok()"),
+                       (r"(?<![\w.])SizeInBytes\(\)\s*>=\s*size\b|\bsize\s*<=\s*(?<![\w.])SizeInBytes\(\)", "destination size"),
+                       (r"other\.SizeInBytes\(\)\s*>=\s*size\b|\bsize\s*<=\s*other\.SizeInBytes\(\)", "source size")):
         if not re.search(cond, body):
             res.add(f"ContiguousBuffer|TryToCopyFrom|{what}", f"ContiguousBuffer::TryToCopyFrom does not test {what} before copying",
                     t.file, t.line, "TryToCopyFrom")
+    # ... and nothing else: TryToCopyFrom succeeds *exactly* when both buffers are Ok and can hold `size` bytes.
+    gm = re.search(r"if\s*\((.*?)\)\s*\{", body)
+    if gm:
+        def _norm(c):
+            c = c.strip()
+            mm2 = re.fullmatch(r"(.+?)\s*<=\s*(.+)", c)
+            return f"{mm2.group(2).strip()} >= {mm2.group(1).strip()}" if mm2 else " ".join(c.split())
+        conj = {_norm(c) for c in gm.group(1).split("&&")}
+        want = {"Ok()", "other.Ok()", "SizeInBytes() >= size", "other.SizeInBytes() >= size"}
+        for extra in sorted(conj - want):
+            res.add(f"ContiguousBuffer|TryToCopyFrom|extra-condition", f"ContiguousBuffer::TryToCopyFrom additionally requires `{extra}`: "
+                    "copies that fit (destination holds `size` bytes, source has them) are refused, e.g. a source view with slack "
+                    "after the structure copied into an exactly-sized destination", t.file, t.line, "TryToCopyFrom")
     # the copy must come after the tests
     st = statements(t.body)
     ci = [i for i, s in enumerate(st) if "CopyFrom" in s and "if" not in s.split("(")[0]]
@@ -1136,4 +1149,203 @@ def enumtext(facts: CppFacts, clauses=("decode", "narrow")):
                     "or the enum's underlying type", TU, fn[0].line, "ReadEnumViewFromTextStream")
     res.samples = [f"branches: {branches}"]
     res.analysed = [TU]
+    return res
+
+
+# ---- R-BYTEPATH: both preprocessor variants of the generic (unaligned) MemoryAccessor -----------------------------------
+def _accessor_variants(src):
+    """{method name: [body, ...]} for MemoryAccessor<CharT, 1, 0, kBits>, including the #else (portable) variants that the
+    compiler run with default flags never sees."""
+    m = re.search(r"struct\s+MemoryAccessor\s*<\s*CharT\s*,\s*1\s*,\s*0\s*,\s*kBits\s*>\s*\{", src)
+    if not m:
+        raise AnalysisError("MemoryAccessor<CharT, 1, 0, kBits> not found")
+    i = m.end() - 1
+    depth = 0
+    j = i
+    while j < len(src):
+        if src[j] == "{":
+            depth += 1
+        elif src[j] == "}":
+            depth -= 1
+            if depth == 0:
+                break
+        j += 1
+    text = _CM.sub("", src[i:j])
+    out = {}
+    for fm in re.finditer(r"static\s+inline\s+[\w:<>\s]+?\b(\w+EndianUInt)\s*\(([^)]*)\)\s*\{", text):
+        k = fm.end() - 1
+        d = 0
+        e = k
+        while e < len(text):
+            if text[e] == "{":
+                d += 1
+            elif text[e] == "}":
+                d -= 1
+                if d == 0:
+                    break
+            e += 1
+        out.setdefault(fm.group(1), []).append(" ".join(text[k + 1:e].split()))
+    return out
+
+
+def bytepath(repo, side=None):
+    """R-BYTEPATH (C02 reads / C03 writes): the generic MemoryAccessor has two implementations of each of Read/Write x
+    Little/Big: a memcpy + byte-swap one and a portable byte loop (#else; compiled with EMBOSS_NO_OPTIMIZATIONS or a
+    non-GNU compiler).  Decided on the source text of *both*:
+      * memcpy variants: a value narrower than its carrier has its bytes at `(char*)&v + sizeof v - kBits / 8` for big
+        endian and at `&v` for little endian; the read's destination and the write's source must be that expression
+        (read and write agree), the other side is `bytes`, the length kBits / 8;
+      * loop variants: each buffer byte is converted through uint8_t before it is widened (CharT may be signed char: no
+        sign extension), byte j carries significance 8j (little) / kBits - 8 - 8j (big) for every width 8..64 -- the
+        read's shift and the write's index are folded for every i."""
+    from .. import cppexpr as X
+    res = RuleResult("R-BYTEPATH")
+    src = repo.read("runtime/cpp/emboss_memory_util.h")
+    FILE = "runtime/cpp/emboss_memory_util.h"
+    var = _accessor_variants(src)
+    need = ("ReadLittleEndianUInt", "WriteLittleEndianUInt", "ReadBigEndianUInt", "WriteBigEndianUInt")
+    for n in need:
+        if len(var.get(n, [])) != 2:
+            raise AnalysisError(f"MemoryAccessor<CharT,1,0,kBits>::{n}: expected a memcpy and a loop variant, found {len(var.get(n, []))}")
+
+    def norm(e):
+        e = re.sub(r"\b(result|value)\b", "V", " ".join(e.split()))
+        return e.replace("( ", "(").replace(" )", ")")
+
+    BIG = "reinterpret_cast<char *>(&V) + sizeof V - kBits / 8"
+    for n in need:
+        big = "Big" in n
+        read = n.startswith("Read")
+        if side is not None and (side == "read") != read:
+            continue
+        fast = [b for b in var[n] if "memcpy" in b]
+        loop = [b for b in var[n] if "memcpy" not in b]
+        if len(fast) != 1 or len(loop) != 1:
+            raise AnalysisError(f"{n}: variants not recognised")
+        # ---- memcpy variant
+        mp = fast[0].find("memcpy")
+        args = []
+        if mp >= 0:
+            k0 = fast[0].index("(", mp)
+            d_, k1 = 0, k0
+            while k1 < len(fast[0]):
+                if fast[0][k1] == "(":
+                    d_ += 1
+                elif fast[0][k1] == ")":
+                    d_ -= 1
+                    if d_ == 0:
+                        break
+                k1 += 1
+            args = _split_top(fast[0][k0 + 1:k1])
+        res.instances += 1
+        if len(args) != 3:
+            res.add(f"{FILE}|{n}|memcpy|shape", f"{n}: memcpy call not recognised", FILE, 0, n)
+        else:
+            dst, s_, ln = (norm(a) for a in args)
+            val_side, buf_side = (dst, s_) if read else (s_, dst)
+            want = BIG if big else "&V"
+            if val_side != want:
+                res.add(f"{FILE}|{n}|memcpy|value-side", f"{n} (memcpy variant) {'copies into' if read else 'copies from'} `{val_side}`; a "
+                        f"{'big' if big else 'little'}-endian value of kBits/8 bytes inside its carrier integer lives at `{want}`: fields "
+                        "of 3, 5, 6 or 7 bytes are " + ("read" if read else "written") + " from the wrong bytes", FILE, 0, n)
+            if buf_side != "bytes":
+                res.add(f"{FILE}|{n}|memcpy|buffer-side", f"{n}: the buffer side of the copy is `{buf_side}`, not `bytes`", FILE, 0, n)
+            if ln != "kBits / 8":
+                res.add(f"{FILE}|{n}|memcpy|length", f"{n}: copies `{ln}` bytes, not kBits / 8", FILE, 0, n)
+        # ---- loop variant
+        body = loop[0]
+        res.instances += 1
+        if read:
+            for bm in re.finditer(r"bytes\s*\[[^\]]*\]", body):
+                before = body[max(0, bm.start() - 40):bm.start()]
+                if not re.search(r"static_cast<\s*(/\*\*/)?\s*(::)?(std::)?uint8_t\s*>\s*\(\s*$|static_cast<\s*unsigned char\s*>\s*\(\s*$", before):
+                    res.add(f"{FILE}|{n}|loop|widen", f"{n} (portable variant) widens `{bm.group(0)}` without converting it to uint8_t first: "
+                            "with a (signed) char buffer every byte >= 0x80 is sign-extended over the higher bytes of the result",
+                            FILE, 0, n)
+            sm = re.search(r"<<\s*(.+?)\s*;", body)
+            idx = re.search(r"bytes\s*\[([^\]]*)\]", body)
+            exprs = (idx.group(1) if idx else None, sm.group(1) if sm else None)
+        else:
+            im = re.search(r"bytes\s*\[([^\]]*)\]\s*=", body)
+            exprs = (im.group(1) if im else None, None)
+            if not re.search(r"value\s*>>=\s*8", body):
+                res.add(f"{FILE}|{n}|loop|advance", f"{n} (portable variant) does not shift the value down by 8 per byte", FILE, 0, n)
+        if exprs[0] is None or (read and exprs[1] is None):
+            res.add(f"{FILE}|{n}|loop|shape", f"{n} (portable variant): byte index / shift not recognised", FILE, 0, n)
+            continue
+        for kb in range(8, 65, 8):
+            for i in range(kb // 8):
+                env = X.Env({"kBits": X.V(X.T(False, 64), kb), "i": X.V(X.T(False, 64), i)}, {}, {})
+                try:
+                    j = X.evaluate(X.parse(exprs[0].strip().strip("()") if False else exprs[0], set()), env).v
+                    sig = X.evaluate(X.parse(exprs[1].strip(), set()), env).v if read else 8 * i
+                except (X.Unsupported, X.UB) as e:
+                    res.add(f"{FILE}|{n}|loop|fold", f"{n}: cannot fold index/shift for kBits={kb}, i={i}: {e}", FILE, 0, n)
+                    break
+                res.instances += 1
+                want_sig = (kb - 8 - 8 * j) if big else 8 * j
+                if not (0 <= j < kb // 8) or sig != want_sig:
+                    res.add(f"{FILE}|{n}|loop|significance", f"{n} (portable variant), kBits={kb}, i={i}: byte {j} is given significance {sig}; "
+                            f"in a {'big' if big else 'little'}-endian field byte {j} carries bit {want_sig}", FILE, 0, n)
+                    break
+            else:
+                continue
+            break
+    res.analysed = [FILE + " (both #if branches of MemoryAccessor<CharT,1,0,kBits>)"]
+    return res
+
+
+def _split_top(s):
+    out, d, cur = [], 0, ""
+    for ch in s:
+        if ch in "(<[":
+            d += 1
+        elif ch in ")>]":
+            d -= 1
+        if ch == "," and d == 0:
+            out.append(cur)
+            cur = ""
+        else:
+            cur += ch
+    out.append(cur)
+    return out
+
+
+def floattext(repo):
+    """R-FLOATTEXT (C06): WriteFloatToTextStream renders with snprintf("%.*g", kPrintfPrecision, (double)n) into a fixed
+    char array.  (a) The precision must be at least max_digits10 of the type (9 for float, 17 for double) or the text does
+    not read back to the same value; (b) the longest %.{P}g rendering of a double is sign + P digits + '.' + 'e' + sign +
+    3 exponent digits = P + 7 characters, so the array needs P + 8 elements (terminating NUL) for the largest P -- one less
+    and the last exponent digit of -1.7976931348623157e+308 is cut off silently."""
+    res = RuleResult("R-FLOATTEXT")
+    FILE = "runtime/cpp/emboss_text_util.h"
+    src = _CM.sub("", repo.read(FILE))
+    precs = {}
+    for m in re.finditer(r"struct\s+FloatConstants\s*<\s*(float|double)\s*>\s*\{(.*?)\n\};", src, re.S):
+        pm = re.search(r"kPrintfPrecision\s*\(\s*\)\s*\{\s*return\s+(\d+)\s*;", m.group(2))
+        if pm:
+            precs[m.group(1)] = int(pm.group(1))
+    if set(precs) != {"float", "double"}:
+        raise AnalysisError(f"FloatConstants<float/double>::kPrintfPrecision not found ({precs})")
+    for t, need in (("float", 9), ("double", 17)):
+        res.instances += 1
+        if precs[t] < need:
+            res.add(f"{FILE}|FloatConstants<{t}>|precision", f"{t} values are printed with {precs[t]} significant digits; {need} "
+                    f"(max_digits10) are needed for the text to read back to the same {t}", FILE, 0, "FloatConstants")
+    fm = re.search(r"void\s+WriteFloatToTextStream\s*\(", src)
+    if not fm:
+        raise AnalysisError("WriteFloatToTextStream not found")
+    body = src[fm.start():src.index("\ntemplate", fm.start())]
+    am = re.search(r"std::array\s*<\s*char\s*,\s*(\d+)\s*>\s*(\w+)\s*;", body)
+    if not am or "%.*g" not in body:
+        raise AnalysisError("WriteFloatToTextStream: buffer declaration or \"%.*g\" format not recognised")
+    n = int(am.group(1))
+    need = max(precs.values()) + 8
+    res.instances += 1
+    if n < need:
+        res.add(f"{FILE}|WriteFloatToTextStream|buffer", f"the snprintf buffer has {n} chars; the longest %.{max(precs.values())}g rendering "
+                f"(-d.{'d' * (max(precs.values()) - 1)}e-ddd) needs {need - 1} characters plus the terminating NUL = {need}: the output is "
+                "silently truncated and reads back as a different value", FILE, 0, "WriteFloatToTextStream")
+    res.samples = [f"precisions {precs}, buffer {n} >= {need}"]
+    res.analysed = [FILE]
     return res
